@@ -35,8 +35,39 @@ static Bytes some_music(Rng &r, bool &hostile)
     hostile = r.chance(0.3);
     Bytes f;
     if(hostile) { int n = r.range(0, 60); static const char *mg[] = {"MThd\0\0\0\6", "RIFF", "MUS\x1A", "FORM\0\0\0\x0eXDIR", "CTMF"}; static const size_t ml[] = {8, 4, 4, 12, 4}; int m = r.below(5); if(r.chance(0.8)) f.insert(f.end(), (const uint8_t *)mg[m], (const uint8_t *)mg[m] + ml[m]); for(int i = 0; i < n; i++) f.push_back(r.byte()); return f; }
-    switch(r.below(4))
+    switch(r.below(6))
     {
+    case 4:
+    {   // EA-MUS (RSXX) image: byte 0 = offset (>= 0x5D) of the data, "rsxx}u" 16 bytes before it, then one SMF-like track without its
+        // initial delta. The only music format that locks the synthesizer's set-up (chip count, volume model) while it is loaded.
+        int start = r.range(0x5D, 0x7F);
+        f.assign((size_t)start, 0);
+        f[0] = (uint8_t)start; memcpy(&f[(size_t)start - 0x10], "rsxx}u", 6);
+        SongOpts o1; o1.max_tracks = 1; o1.min_tracks = 1; o1.max_events = 14; o1.sysex_meta = false; o1.tempo_changes = false;
+        Song s1 = gen_song(r, o1);
+        Bytes t = serialize_track(s1, s1.tracks[0]);
+        size_t skip = 0; while(skip < t.size() && (t[skip] & 0x80)) skip++; skip++;
+        f.insert(f.end(), t.begin() + (long)std::min(skip, t.size()), t.end());
+        return f;
+    }
+    case 5:
+    {   // a well-formed multi-track song damaged in one place: the loader gets past the header (and usually some tracks) before it
+        // refuses the file, on an instance that may hold an earlier song
+        SongOpts o; o.min_tracks = 2; o.max_tracks = 4; o.max_events = 12; Song s = gen_song(r, o); f = serialize_song(s);
+        hostile = true;
+        std::vector<size_t> trk; for(size_t i = 14; i + 8 <= f.size(); i++) if(!memcmp(&f[i], "MTrk", 4)) trk.push_back(i);
+        if(trk.empty()) return f;
+        size_t t = trk[r.below((uint32_t)trk.size())];
+        switch(r.below(5))
+        {
+        case 0: f[t + 4] = f[t + 5] = f[t + 6] = f[t + 7] = 0; break;                           // the chunk claims no data: no first delta time to read
+        case 1: f.resize(t + 8); break;                                                          // the file ends behind the chunk header
+        case 2: f.resize(t + 8 + r.below((uint32_t)(f.size() - t - 8 + 1))); break;              // ... or somewhere inside the track
+        case 3: { Bytes z; put_str(z, "MTrk"); put_be(z, 0, 4); f.insert(f.begin() + (long)t, z.begin(), z.end()); f[11]++; break; }   // an empty extra track in front of this one
+        default: f[t + 8] = 0xFF; f[t + 9] = 0x80; break;                                        // delta time that never ends / event without delta
+        }
+        return f;
+    }
     case 0: { SongOpts o; o.max_tracks = 3; o.max_events = 20; o.devices = r.chance(0.4); Song s = gen_song(r, o); return serialize_song(s); }
     case 1: return gen_mus(r, 20).bytes;
     case 2: return gen_xmi(r, 0, 12).bytes;
